@@ -296,3 +296,82 @@ func (ex *Exec) calendarIntrinsic(n string, args []Value) (Value, bool) {
 	}
 	return ex.intOf(ts.Ite(inRange, chain, res), 64, false), true
 }
+
+// ---- package strings on concrete strings ----
+
+func init() {
+	for _, n := range []string{"strings.Cut", "strings.Index", "strings.LastIndex", "strings.IndexByte", "strings.Split", "strings.SplitN",
+		"strings.TrimPrefix", "strings.TrimSpace", "strings.Trim", "strings.TrimLeft", "strings.TrimRight", "strings.ToLower", "strings.ToUpper",
+		"strings.EqualFold", "strings.Replace", "strings.ReplaceAll", "strings.Fields", "strings.Count", "strings.Repeat", "strings.CutPrefix", "strings.CutSuffix"} {
+		intrinsicSet[n] = true
+	}
+}
+
+func strSlice(xs []string) Value {
+	a := make([]Value, len(xs))
+	for i, x := range xs {
+		a[i] = Str{C: x}
+	}
+	if len(a) == 0 {
+		return Slice{A: []Value{}}
+	}
+	return Slice{A: a}
+}
+
+// stringsIntrinsic: functions of package strings evaluated on concrete arguments
+// (strArg panics "unsupported" for a symbolic string).
+func (ex *Exec) stringsIntrinsic(n string, args []Value) (Value, bool) {
+	if !strings.HasPrefix(n, "strings.") {
+		return nil, false
+	}
+	s := func(i int) string { return strArg(args[i]) }
+	k := func(i int) int { return int(ex.concInt(args[i], n)) }
+	switch n {
+	case "strings.Cut":
+		a, b, ok := strings.Cut(s(0), s(1))
+		return Tuple{Str{C: a}, Str{C: b}, Bool{C: ok}}, true
+	case "strings.CutPrefix":
+		a, ok := strings.CutPrefix(s(0), s(1))
+		return Tuple{Str{C: a}, Bool{C: ok}}, true
+	case "strings.CutSuffix":
+		a, ok := strings.CutSuffix(s(0), s(1))
+		return Tuple{Str{C: a}, Bool{C: ok}}, true
+	case "strings.Index":
+		return mkInt(int64(strings.Index(s(0), s(1))), 64, false), true
+	case "strings.LastIndex":
+		return mkInt(int64(strings.LastIndex(s(0), s(1))), 64, false), true
+	case "strings.IndexByte":
+		return mkInt(int64(strings.IndexByte(s(0), byte(k(1)))), 64, false), true
+	case "strings.Count":
+		return mkInt(int64(strings.Count(s(0), s(1))), 64, false), true
+	case "strings.Split":
+		return strSlice(strings.Split(s(0), s(1))), true
+	case "strings.SplitN":
+		return strSlice(strings.SplitN(s(0), s(1), k(2))), true
+	case "strings.Fields":
+		return strSlice(strings.Fields(s(0))), true
+	case "strings.TrimPrefix":
+		return Str{C: strings.TrimPrefix(s(0), s(1))}, true
+	case "strings.TrimSpace":
+		return Str{C: strings.TrimSpace(s(0))}, true
+	case "strings.Trim":
+		return Str{C: strings.Trim(s(0), s(1))}, true
+	case "strings.TrimLeft":
+		return Str{C: strings.TrimLeft(s(0), s(1))}, true
+	case "strings.TrimRight":
+		return Str{C: strings.TrimRight(s(0), s(1))}, true
+	case "strings.ToLower":
+		return Str{C: strings.ToLower(s(0))}, true
+	case "strings.ToUpper":
+		return Str{C: strings.ToUpper(s(0))}, true
+	case "strings.EqualFold":
+		return Bool{C: strings.EqualFold(s(0), s(1))}, true
+	case "strings.Replace":
+		return Str{C: strings.Replace(s(0), s(1), s(2), k(3))}, true
+	case "strings.ReplaceAll":
+		return Str{C: strings.ReplaceAll(s(0), s(1), s(2))}, true
+	case "strings.Repeat":
+		return Str{C: strings.Repeat(s(0), k(1))}, true
+	}
+	return nil, false
+}
